@@ -911,6 +911,58 @@ func (propC14) Check(t *testing.T, p *Plan, st *Stats) *Violation {
 	if v := closeViol(o, "this run"); v != nil {
 		return v
 	}
+	// (v) once faults stop, the same long-lived Engine answers again, completely. A
+	// failed, cancelled or cut-short evaluation leaves nothing behind that makes a later
+	// one fail, lose data or leak a reader. Sampled: it costs two more executions.
+	if p.Harness == "engine" && !expectErr && p.Tags["either_way"] != "1" && p.Tags["undetermined"] != "1" &&
+		!o.GoroutineLeak && o.LateReleases == 0 && (p.Run+uint64(len(p.Faults)))%4 == 0 {
+		ref := o
+		if len(p.Faults) > 0 || o.Failed {
+			ref = Exec(t, c14Twin(p, false, nil), 0, ExecOpts{})
+			checkHarnessLimit(ref)
+			if st != nil {
+				st.NoteOutcome(ref)
+			}
+		}
+		if !ref.Bad() && !ref.Failed && ref.Result != nil {
+			ap := *p
+			ap.Violation = nil
+			v0 := Variant{}
+			if len(p.Variants) > 0 {
+				v0 = p.Variants[0]
+			}
+			v0.After = 1 + int(p.Run/4%2)
+			ap.Variants = []Variant{v0}
+			o3 := Exec(t, &ap, 0, ExecOpts{})
+			checkHarnessLimit(o3)
+			if st != nil {
+				st.NoteOutcome(o3)
+				st.ProbeIf(len(o3.After) > 0, "second_evaluation_on_the_same_engine_after_faults_stopped")
+				st.ProbeIf(len(o3.After) > 0 && o3.Failed, "second_evaluation_after_a_failed_one")
+				st.ProbeIf(len(o3.After) > 0 && o3.CtxCancelled, "second_evaluation_after_a_cancelled_one")
+			}
+			if o3.Panic != "" {
+				return viol("C14(panic)", "an error, not a panic (evaluation repeated on the same Engine after faults stopped)", clip(o3.Panic, 800))
+			}
+			if o3.Hang {
+				return viol("C14(hang)", "evaluation returns (repeated on the same Engine after faults stopped)", "never returned")
+			}
+			want := ref.Result.Render()
+			for i, ae := range o3.After {
+				if ae.Failed {
+					return viol("C14(v:after-faults-stop)", "once faults have stopped, the same Engine answers the query again (first evaluation: "+o3.ErrClass()+")",
+						fmt.Sprintf("evaluation #%d after the faulted one fails although the daemon answers faithfully: %s", i+1, clip(ae.ErrText, 300)))
+				}
+				if ae.Render != want {
+					return viol("C14(v:after-faults-stop)", "once faults have stopped, the same Engine gives the complete answer: "+clip(want, 400),
+						fmt.Sprintf("evaluation #%d after the faulted one (which ended as: %s): %s", i+1, o3.ErrClass(), clip(ae.Render, 400)))
+				}
+			}
+			if v := closeViol(o3, "a faulted evaluation followed by fault-free ones on the same Engine"); v != nil {
+				return v
+			}
+		}
+	}
 	return nil
 }
 
